@@ -71,10 +71,12 @@ Lemma quiet_refl m : quiet m m.
 Proof. done. Qed.
 Lemma quiet_trans m1 m2 m3 : quiet m1 m2 → quiet m2 m3 → quiet m1 m3.
 Proof. unfold quiet. intros (-> & -> & ->) (-> & -> & ->). done. Qed.
+Lemma MO_quiet O X m m' : quiet m m' → MO O X m → MO O X m'.
+Proof. unfold MO, quiet. intros (-> & -> & ->). done. Qed.
 Lemma MX_quiet X m m' : quiet m m' → MX X m → MX X m'.
-Proof. unfold MX, quiet. intros (-> & -> & ->). done. Qed.
+Proof. unfold MX, MO, quiet. intros (-> & -> & ->). done. Qed.
 Lemma MI_quiet m m' : quiet m m' → MI m → MI m'.
-Proof. unfold MI, MX, quiet. intros (-> & -> & ->). done. Qed.
+Proof. unfold MI, MX, MO, quiet. intros (-> & -> & ->). done. Qed.
 
 (* quiet outcome: no panic, only outputs / obligation-free queues changed *)
 Definition goodq (m : M) (r : outcome M) : Prop :=
@@ -149,3 +151,53 @@ Proof.
   { apply IH. intros m' y Hq Hy. apply Hf; [eauto using quiet_trans|by right]. }
   destruct (foldO f l m1); cbn in *; eauto using quiet_trans.
 Qed.
+
+(* ---------------------------------------------------------------- frames *)
+(* from [blank (ms a) = blank (ms b)], rewrite every field the blanking keeps *)
+Ltac rw_fields H :=
+  match type of H with
+  | ?bl (ms ?a) = ?bl (ms ?b) =>
+    try rewrite (f_equal conns H : conns (ms a) = conns (ms b));
+    try rewrite (f_equal objs H : objs (ms a) = objs (ms b));
+    try rewrite (f_equal svcs H : svcs (ms a) = svcs (ms b));
+    try rewrite (f_equal calls H : calls (ms a) = calls (ms b));
+    try rewrite (f_equal next H : next (ms a) = next (ms b));
+    try rewrite (f_equal chans H : chans (ms a) = chans (ms b));
+    try rewrite (f_equal listeners H : listeners (ms a) = listeners (ms b))
+  end.
+Ltac rw_fields_in H H' :=
+  match type of H with
+  | ?bl (ms ?a) = ?bl (ms ?b) =>
+    try rewrite (f_equal conns H : conns (ms a) = conns (ms b)) in H';
+    try rewrite (f_equal objs H : objs (ms a) = objs (ms b)) in H';
+    try rewrite (f_equal svcs H : svcs (ms a) = svcs (ms b)) in H';
+    try rewrite (f_equal calls H : calls (ms a) = calls (ms b)) in H';
+    try rewrite (f_equal next H : next (ms a) = next (ms b)) in H';
+    try rewrite (f_equal chans H : chans (ms a) = chans (ms b)) in H';
+    try rewrite (f_equal listeners H : listeners (ms a) = listeners (ms b)) in H'
+  end.
+
+Ltac mx_frame H :=
+  let Hreg := fresh "Hreg" in let Huo := fresh "Huo" in let Hus := fresh "Hus" in
+  let Hoo := fresh "Hoo" in let Hol := fresh "Hol" in let Hos := fresh "Hos" in
+  let Hoc := fresh "Hoc" in let Hch := fresh "Hch" in let Hcs := fresh "Hcs" in
+  let Hsc := fresh "Hsc" in let Hcb := fresh "Hcb" in let Hce := fresh "Hce" in
+  let Hec := fresh "Hec" in let Hqe := fresh "Hqe" in let Hqn := fresh "Hqn" in
+  let Hcl := fresh "Hcl" in
+  destruct H as [Hreg Huo Hus Hoo Hol Hos Hoc Hch Hcs Hsc Hcb Hce Hec Hqe Hqn Hcl];
+  constructor; cbn; try assumption.
+
+Lemma MO_st O X m f : MO O X m → MO O X (m <| ms; st ::= f |>).
+Proof. intros H. unfold MO in *. mx_frame H. Qed.
+
+(* ---------------------------------------------------------------- registry monotonicity *)
+Lemma reg_so_mono O S S' : S' ⊆ S → reg_so O S → reg_so O S'.
+Proof. intros Hs H k sv Hk. eapply H, lookup_weaken; eauto. Qed.
+Lemma uniq_obj_mono O O' : O' ⊆ O → uniq_obj O → uniq_obj O'.
+Proof. intros Hs H u1 u2 o1 o2 H1 H2. eapply H; eapply lookup_weaken; eauto. Qed.
+Lemma uniq_svc_mono S S' : S' ⊆ S → uniq_svc S → uniq_svc S'.
+Proof. intros Hs H u1 u2 o1 o2 H1 H2. eapply H; eapply lookup_weaken; eauto. Qed.
+Lemma own_obj_mono X O O' : O' ⊆ O → own_obj X O → own_obj X O'.
+Proof. intros Hs H k l Hk. eapply H, lookup_weaken; eauto. Qed.
+Lemma own_svc_mono X S S' : S' ⊆ S → own_svc X S → own_svc X S'.
+Proof. intros Hs H k l Hk. eapply H, lookup_weaken; eauto. Qed.
